@@ -14,8 +14,12 @@ claim("C16",
 
 claim("C15",
       "Proof that the UDP announce request carries the torrent's info-hash, peer id, port and counters unchanged for "
-      "every input, and that the wire structs match the BEP 15 tables. Partial: HTTP query, event discipline and "
-      "interval bounds are added as their contracts discharge (see evidence for the current list).",
+      "every input, and that the wire structs match the BEP 15 tables; that the periodical announcer's first announce "
+      "of a run says started, that it says completed at most once (ghost counter; a nil channel is never selected), "
+      "never says stopped from its loop, and arms its timer from a tracker reply or a need-more-peers signal only with "
+      "a positive interval that is the tracker's or the minimum announce interval (zero/negative replies fall back to "
+      "the minimum). Bounded stand-in (labelled, not counted): percent-escaping of info-hash and peer id for all byte "
+      "values. Partial: the HTTP query as a whole, the stop announcer, and real timers are outside.",
       "DESIGN.md §4 C15")
 
 claim("C06",
